@@ -193,7 +193,12 @@ impl SassCalculation {
                 Some(CalculationArg::Number(max)),
             ) => {
                 if min.is_comparable_to(&value) && min.is_comparable_to(&max) && value.is_comparable_to(&max) {
-                    if value.num <= min.num.convert(min.unit(), value.unit()) {
+                    // clamp(min, value, max) is max(min, min(value, max)): when the
+                    // bounds cross, `min` wins
+                    if value.num <= min.num.convert(min.unit(), value.unit())
+                        || max.num.convert(max.unit(), value.unit())
+                            <= min.num.convert(min.unit(), value.unit())
+                    {
                         return Ok(Value::Dimension(min));
                     }
 
